@@ -86,6 +86,9 @@ def mutants_of(path: Path):
     return out
 
 
+KNOWN_SURVIVORS = None  # descriptions of mutants already known to pass the tests (skips the test run)
+
+
 def evaluate(job):
     fname, desc, code = job
     tmp = Path(tempfile.mkdtemp(prefix="basictdf-mc-"))
@@ -95,11 +98,17 @@ def evaluate(job):
         env = dict(os.environ)
         env["PYTHONPATH"] = str(tmp / "src")
         env["PYTHONDONTWRITEBYTECODE"] = "1"
-        p = subprocess.run([PY, "-m", "pytest", "-q", "-x", "-p", "no:cacheprovider", "--continue-on-collection-errors", "--ignore", str(REPO / "tests" / "test_Tdf.py"), str(REPO / "tests")],
+        if KNOWN_SURVIVORS is not None:
+            if desc not in KNOWN_SURVIVORS:
+                return {"desc": desc, "tests": "killed"}
+            p = None
+        else:
+            p = subprocess.run([PY, "-m", "pytest", "-q", "-x", "-p", "no:cacheprovider", "--continue-on-collection-errors", "--ignore", str(REPO / "tests" / "test_Tdf.py"), str(REPO / "tests")],
                            cwd=str(tmp), env=env, capture_output=True, text=True, timeout=300)
-        tail = p.stdout.strip().splitlines()[-1] if p.stdout.strip() else ""
-        if not tail.startswith("39 passed"):
-            return {"desc": desc, "tests": "killed"}
+        if p is not None:
+            tail = p.stdout.strip().splitlines()[-1] if p.stdout.strip() else ""
+            if not tail.startswith("39 passed"):
+                return {"desc": desc, "tests": "killed"}
         env2 = dict(os.environ)
         env2["SA_REPO"] = str(tmp)
         env2["SA_OUT"] = str(tmp / "evidence")
@@ -129,6 +138,10 @@ def main(argv):
             mx = int(argv[i + 1])
         if a == "--jobs":
             jobs = int(argv[i + 1])
+        if a == "--survivors":
+            global KNOWN_SURVIVORS
+            d = json.load(open(argv[i + 1]))
+            KNOWN_SURVIVORS = {r["desc"] for r in d["unflagged"] + d["flagged"]}
     work = []
     for p in sorted((REPO / "src" / "basictdf").glob("*.py")):
         if p.name == "__init__.py" or (files and p.name not in files):
